@@ -126,7 +126,7 @@ CHECKS = {
     "C07": dict(
         modules=["AggkitModel.Properties.C07"],
         scenarios=[dict(name="bridgestore"), dict(name="tree"), dict(name="l1infostore"), dict(name="gersync")],
-        generated=[],
+        generated=["SyncFacts"],
         leanchecker=True,
         level_text="Proved in Lean 4: C07_atomic — for every block and EVERY index of the failing write statement (and for duplicate keys, deposit gaps, refusal while halted): a ProcessBlock that does not return success leaves blocks, event rows, exit-tree roots and nodes exactly as before; "
                    "C07_retry_clean_roots — a block attempt rolled back after any number of its leaves, incl. a fault inside AddLeaf's store statements, followed by anything, serves exactly the roots of a run in which the attempt never happened (corollary of the history induction runHistory_inv; "
@@ -174,7 +174,7 @@ CHECKS = {
     "C05": dict(
         modules=["AggkitModel.Properties.C05"],
         scenarios=[dict(name="downloader"), dict(name="reorgsync")],
-        generated=[],
+        generated=["SyncFacts"],
         leanchecker=True,
         level_text="Proved in Lean 4 by induction over loop iterations, for every chain, chunk size (0 included), start block and EVERY admissible sequence of (tip, finalized) observations — tip jumps of any size, finalized below/at/above the tip or not moving, failing finalized lookups: "
                    "C05_exactly_once — the blocks handed to the driver are strictly increasing (so each at most once), each carries exactly the watched logs of its own block in log order (empty markers only for blocks without watched logs), and every block with watched logs between the start and the loop position has been handed over; "
@@ -223,7 +223,7 @@ CHECKS = {
     "C06": dict(
         modules=["AggkitModel.Properties.C06"],
         scenarios=[dict(name="reorgsync")],
-        generated=["CertFacts"],
+        generated=["CertFacts", "SyncFacts"],
         leanchecker=True,
         level_text="Proved in Lean 4 by induction over EVERY history (new blocks, reorgs at any depth above the finalized block with shorter or longer new forks, successive reorgs, finality moving at any time, two subscribers progressing at any relative speed, detection passes, restarts, a stop of the node while a syncer is rewinding — at any moment, any length): "
                    "C06_tracked_or_final — every block a syncer has processed is still tracked by the detector with the hash it was processed with, or was delivered as finalized and is on the chain; C06_detected — after a detection pass that could fetch the headers it needed no block that the chain has replaced remains in the syncer's store (it was rewound to at or before the first replaced block it had processed), and the rewind point is exactly the first tracked block whose hash differs; "
@@ -295,7 +295,7 @@ CHECKS = {
     "C16": dict(
         modules=["AggkitModel.Properties.C16"],
         scenarios=[dict(name="gersync")],
-        generated=[],
+        generated=["SyncFacts"],
         leanchecker=True,
         level_text="Proved in Lean 4 (PP mode): C16_table — for every L2 chain with at most one GER event per block and EVERY sequence of polls (tips advancing by any amount, repeated or lagging) the table equals the fold of the insert/remove events of all blocks up to the furthest tip seen; "
                    "firstAfter_spec / C16_query — the query returns an injected, not-removed root with the smallest index at or after X and finds one whenever one exists. FEP mode: C16_fep_sound — after any sequence of polls (any tips, the L2 GER map answering differently at every poll) every row of the index is an L1 info leaf that the L2 GER map held when the row's block was polled; C16_fep_latest — the row filed at a poll is the last injected leaf at or after the downloader's start index. C16_table_ops / C16_query_ops — the same for the FULL history: any sequence of polls, restarts of the node at any point and reorgs at any block (the chain replaced from that block on), under the one hypothesis that no reorg drops an already processed removal. PARTIAL: that excluded case is real — C16_reorg_false_with_removal proves the witness on the model, KNOWN-FINDING F4 replays it on the real code. "
